@@ -135,7 +135,17 @@ var abiCheck = &core.Check{Name: "c03/abi-bodies", Quick: 6000, Thorough: 400000
 	again := boc.NewCell()
 	again.WriteUint(uint64(op.opcode), 32)
 	if err := tlb.Marshal(again, val); err != nil || tlbgen.CellKey(again) != key {
-		return fmt.Errorf("%s: decoded as %s, whose re-encoding is a different cell (%v)\nvalue: %s", op.name, *name, err, render(v))
+		// Several operations are registered under one opcode; the decoder takes the first whose layout reads the
+		// body completely. The bits of a valid body of one operation can also be a complete - possibly
+		// non-canonical, e.g. a VarUInteger with leading zero bytes - body of another operation with the same
+		// opcode: the layouts are ambiguous, nothing is wrong with the codec. No statement in that case.
+		for _, o := range abiOps {
+			if o.name == *name && o.opcode == op.opcode {
+				c.Class("decoded under another operation of the same opcode whose layout also reads the body completely (ambiguous, not judged)")
+				return nil
+			}
+		}
+		return fmt.Errorf("%s: decoded as %s, which is not registered under opcode %#08x, and its re-encoding is a different cell (%v)\nvalue: %s", op.name, *name, op.opcode, err, render(v))
 	}
 	c.Class("decoded under an alias with identical encoding")
 	return nil
